@@ -1012,7 +1012,14 @@ class file_reader(Generic[T]):
             raise ValueError("cannot read header - is it an avro file?")
 
         # `meta` values are bytes. So, the actual decoding has to be external.
-        self.metadata = {k: v.decode() for k, v in self._header["meta"].items()}
+        # A value that is not UTF-8 text (the specification allows any bytes)
+        # is handed over as it is instead of making the file unreadable.
+        self.metadata = {}
+        for k, v in self._header["meta"].items():
+            try:
+                self.metadata[k] = v.decode()
+            except UnicodeDecodeError:
+                self.metadata[k] = v
 
         self._schema = json.loads(self.metadata["avro.schema"])
         self.codec = self.metadata.get("avro.codec", "null")
